@@ -15,6 +15,14 @@ from data_algebra.cdata import (
 )
 
 
+
+def _literal_text(value) -> str:
+    """
+    A constant as expression text (quotes and backslashes escaped): user values are not pasted into expression source.
+    """
+    return str(data_algebra.expr_rep.Value(value).to_python())
+
+
 def def_multi_column_map(
     d: ViewRepresentation,
     *,
@@ -89,7 +97,9 @@ def def_multi_column_map(
     )
     if coalesce_value is not None:
         ops = ops.extend(
-            {mapped_value_key: f"{mapped_value_key}.coalesce({coalesce_value})"}
+            {
+                mapped_value_key: f"{mapped_value_key}.coalesce({_literal_text(coalesce_value)})"
+            }
         )
     ops = ops.convert_records(record_map_back)
     if cols_to_map_back is not None:
@@ -426,12 +436,12 @@ def braid_data(
         # clear out stand-in values
         .extend(
             {
-                state_value_column_name: f'({source_id_column} == "{event_row_mark}").if_else(None, {state_value_column_name})'
+                state_value_column_name: f"({source_id_column} == {_literal_text(event_row_mark)}).if_else(None, {state_value_column_name})"
             }
         )
         .extend(
             {
-                k: f'({source_id_column} == "{state_row_mark}").if_else(None, {k})'
+                k: f"({source_id_column} == {_literal_text(state_row_mark)}).if_else(None, {k})"
                 for k in event_value_column_names
             }
         )
